@@ -69,10 +69,26 @@ def scenario_script(name):
 _line = re.compile(r"^(\d+)\s+(\w+)\((.*)\)\s+=\s+(-?\d+|\?)(.*)$")
 
 
+_unfinished = re.compile(r"^(\d+)\s+(\w+)\((.*?)\s*<unfinished \.\.\.>$")
+_resumed = re.compile(r"^(\d+)\s+<\.\.\. (\w+) resumed>(.*)$")
+
+
 def parse_strace(path):
+    """(with -f and several threads strace splits a call that another thread's output interrupts into
+    "call(args <unfinished ...>" and "<... call resumed>rest": the two halves are joined again)"""
     out = []
+    pending = {}
     for ln in open(path, errors="replace"):
-        m = _line.match(ln.rstrip("\n"))
+        ln = ln.rstrip("\n")
+        mu = _unfinished.match(ln)
+        if mu:
+            pending[mu.group(1)] = (mu.group(2), mu.group(3))
+            continue
+        mr = _resumed.match(ln)
+        if mr and mr.group(1) in pending and pending[mr.group(1)][0] == mr.group(2):
+            sysname, prefix = pending.pop(mr.group(1))
+            ln = "%s %s(%s%s" % (mr.group(1), sysname, prefix, mr.group(3))
+        m = _line.match(ln)
         if not m:
             continue
         out.append({"pid": int(m.group(1)), "sys": m.group(2), "args": m.group(3),
